@@ -294,7 +294,7 @@ fn key_type(k: &str) -> char {
         "p" | "q" | "xs" | "k" => 'L',
         "pw" | "pw2" | "f" | "g" => 'P',
         "knots" => 'K',
-        "op" | "fmt" | "bytes" | "val" => 'S',
+        "op" | "fmt" | "bytes" | "val" | "kind" => 'S',
         _ => 'F',
     }
 }
